@@ -249,7 +249,9 @@ static mut STATIC_TS_ID: u32 = 0;
 pub(crate) fn set_static_tileset(id: u32, ts: Tileset<crate::pixel::Pixels>) {
     unsafe {
         STATIC_TS_ID = id;
-        STATIC_TS = Some(ts);
+        // overwrite without dropping the previous value (None): its drop glue (palette hash map) is not explored
+        #[allow(static_mut_refs)]
+        core::ptr::write(&mut STATIC_TS, Some(ts));
     }
 }
 pub(crate) fn stub_tilesets_get_static<P>(_s: &TilesetsById<P>, id: u32) -> Option<&Tileset<P>> {
@@ -264,9 +266,12 @@ pub(crate) fn stub_tilesets_get_static<P>(_s: &TilesetsById<P>, id: u32) -> Opti
     }
 }
 pub(crate) fn mk_tileset(id: u32, tile_count: u32, tw: u16, th: u16, pixels: Vec<image::Rgba<u8>>) -> Tileset<crate::pixel::Pixels> {
+    mk_tileset_flag(id, tile_count, tw, th, pixels, true)
+}
+pub(crate) fn mk_tileset_flag(id: u32, tile_count: u32, tw: u16, th: u16, pixels: Vec<image::Rgba<u8>>, empty_tile_is_id_zero: bool) -> Tileset<crate::pixel::Pixels> {
     Tileset {
         id,
-        empty_tile_is_id_zero: true,
+        empty_tile_is_id_zero,
         tile_count,
         tile_size: crate::tileset::vkl::mk_tile_size(tw, th),
         base_index: 1,
@@ -352,8 +357,8 @@ pub(crate) fn any_error_kind() -> io::ErrorKind {
 // loops (SIMD group scans) make even two insertions cost minutes and gigabytes under CBMC. These stubs replace
 // std::collections::HashMap::{insert, get, len} by an association list with the same observable behaviour
 // (insert returns the previous value for an existing key, get finds the latest value, len counts distinct keys).
-// Model restriction (part of the claim): one palette map is live at a time in a harness -- a second map created
-// later shares the table, which is only used where the second map replaces the first (new-over-legacy precedence).
+// Model restriction (part of the claim): the table belongs to the most recently created map (creation empties it);
+// a map created earlier must not be read afterwards -- true where a later palette replaces an earlier one.
 use std::borrow::Borrow;
 use std::collections::HashMap;
 use std::hash::{BuildHasher, Hash};
@@ -418,6 +423,13 @@ pub(crate) fn side_color(_this: &ColorPalette, index: u32) -> Option<&ColorPalet
         }
         None
     }
+}
+
+/// `HashMap::with_hasher` (what `IntMap::default()` calls): creating a map empties the side table, so that a palette
+/// parsed later in the same harness starts empty even though the earlier one has not been dropped yet
+pub(crate) fn hm_with_hasher<K, V, S>(hash_builder: S) -> HashMap<K, V, S> {
+    side_table_reset();
+    HashMap::with_capacity_and_hasher(0, hash_builder)
 }
 
 pub(crate) fn hm_len<K, V, S, A: std::alloc::Allocator>(_this: &HashMap<K, V, S, A>) -> usize {
